@@ -435,6 +435,32 @@ let cmd_py (args : string list) : string =
     Stdlib.String.concat " " (("tt=" ^ Stdlib.String.concat "," ttobs) :: Stdlib.List.filter_map (fun x -> x) sigsobs)
   | _ -> "BADCASE"
 
+
+(* ---- ghws <b|l> <vars> <sigs> <vecs> <hexbytes> ---- *)
+let cmd_ghws (args : string list) : string =
+  match args with
+  | [endian; vars; sigs; vecs; input] ->
+    let tpes = Stdlib.List.map sig_enc_of (split_on ',' vars) in
+    let gsigs = Stdlib.List.map (fun s ->
+      match Stdlib.String.split_on_char ':' s with
+      | [t; r; v] ->
+        let tpe = (match Ghw.ghw_tpe_of (n_of_int (int_of_string t)) with Some t -> t | None -> failwith "tpe") in
+        { Ghw.gs_tpe = tpe; Ghw.gs_ref = nat_of_int (int_of_string r);
+          Ghw.gs_vec = (if v = "~" then None else Some (nat_of_int (int_of_string v))) }
+      | _ -> failwith "bad sig") (split_on ',' sigs) in
+    let gvecs = Stdlib.List.map (fun s ->
+      match Stdlib.String.split_on_char ':' s with
+      | [mn; mx; two; r] -> (((nat_of_int (int_of_string mn), nat_of_int (int_of_string mx)), two = "1"), nat_of_int (int_of_string r))
+      | _ -> failwith "bad vec") (split_on ',' vecs) in
+    (match get (Ghw.read_signals lz_compress !cap (endian = "b") tpes gsigs gvecs (bytes_of_hex input)) with
+     | None -> "ERR"
+     | Some (blocks, tt) ->
+       let obs = Stdlib.List.mapi (fun i tpe ->
+         let s = get (WaveMem.load_signal lz_decompress blocks (nat_of_int i) tpe) in
+         Printf.sprintf " s%d=%s" i (signal_obs s)) tpes in
+       "tt=" ^ tt_obs tt ^ Stdlib.String.concat "" obs)
+  | _ -> "BADCASE"
+
 let dispatch (cmd : string) (args : string list) : string =
   match cmd with
   | "offsets" -> cmd_offsets args
@@ -447,6 +473,7 @@ let dispatch (cmd : string) (args : string list) : string =
   | "slice" -> cmd_slice args
   | "loadseq" -> cmd_loadseq args
   | "py" -> cmd_py args
+  | "ghws" -> cmd_ghws args
   | "vcd" -> cmd_vcd args
   | _ -> "UNSUPPORTED"
 
